@@ -124,6 +124,11 @@ static data, be baked into compiled code and be lost by leaf serialisation) -/
 theorem no_array_in_static :
     GenTrace.fields.all (fun f => !(f.markedStatic && f.kind == .array)) = true := by decide +kernel
 
+/-- no constructor in the source stores a lambda / nested function into a field whose body uses an array- or module-valued
+constructor argument (or such a field of `self`): all array state of a model is reachable as pytree LEAVES, which is what
+flatten/unflatten and `tree_serialise_leaves` transport.  (The quantifier is the finite generated table.) -/
+theorem no_state_hidden_in_closures : GenTrace.closureCaptures = [] := by decide
+
 /-- the table is not empty: the four methods of `Affine`, `Chain`, the spline, the bisection loops … -/
 theorem table_nonempty : 200 ≤ GenTrace.methods.length ∧
     GenTrace.methods.any (fun m => m.cls == "Chain" && m.name == "transform") = true := by decide +kernel
